@@ -50,7 +50,7 @@ for f in ("cumsum", "cumprod"):
 CALLS += [
     ("sum/empty", "F.sum(e, axis=0)"), ("sum/0d", "F.sum(s)"), ("mean/0d", "F.mean(s)"), ("prod/empty", "F.prod(e, axis=1)"),
     ("clip", "F.clip(y, -0.5, 0.5)"), ("clip/None", "F.clip(x, None, 0.25)"), ("clip/arrays", "F.clip(y, y[::-1] - 1.0, 2.5)"),
-    ("where", "F.where(M, x, z)"), ("where/scalar", "F.where(M, x, 2.0)"), ("matmul", "F.matmul(x, xt)"), ("matmul/1d", "F.matmul(x, y)"),
+    ("where", "F.where(M, x, z)"), ("where/tensor-condition", "F.where(MT, x, z)"), ("where/np-on-tensor-condition", "np.where(MT, x, z)"), ("where/scalar", "F.where(M, x, 2.0)"), ("matmul", "F.matmul(x, xt)"), ("matmul/1d", "F.matmul(x, y)"),
     ("einsum", "F.einsum('ij,kj->ik', x, z)"), ("einsum/trace", "F.einsum('ii->', F.matmul(x, xt))"), ("einsum/implicit", "F.einsum('ij,j', x, y)"),
     ("norm", "F.linalg.norm(x, axis=1)"), ("norm/ord1", "F.linalg.norm(x, ord=1, axis=0)"), ("norm/keepdims", "F.linalg.norm(y, keepdims=True)"),
     ("reshape", "F.reshape(x, (3, 2))"), ("reshape/-1", "F.reshape(xt, (-1,))"), ("transpose", "F.transpose(x)"),
@@ -84,6 +84,7 @@ def cases(tier):
     for i in range(0, len(CALLS), 12):
         out.append({"kind": "value", "name": "value/%d" % i, "calls": CALLS[i:i + 12]})
     out.append({"kind": "dtype", "name": "dtype-lane"})
+    out.append({"kind": "signatures", "name": "override-signatures"})
     return out
 
 
@@ -100,6 +101,7 @@ def _operands(mg, as_tensor):
     env["A"] = np.array(symarr("A", (2, 3)), dtype=object)
     env["M"] = np.array([[True, False, True], [False, False, True]])
     env["O"] = np.array(symarr("O", (2, 3)), dtype=object)
+    env["MT"] = mg.Tensor(env["M"]) if as_tensor else env["M"]
     return env
 
 
@@ -297,10 +299,78 @@ def _dtype_signature(f):
     return "dtype:" + f["signature"]
 
 
+# ------------------------------------------------------------------ keywords of the NumPy signature that the override does not accept
+SIG_REPLAY = """import sys, inspect
+import numpy as np
+import mygrad as mg
+import mygrad.tensor_base as tb
+WANT = %r
+reg = dict(tb.Tensor.__array_function__.__globals__["_REGISTERED_DIFFERENTIABLE_NUMPY_FUNCS"])
+bad = []
+for npf, mgf in reg.items():
+    if npf.__name__ != WANT[0]: continue
+    ns, ms = inspect.signature(npf), inspect.signature(mgf)
+    kinds = (inspect.Parameter.POSITIONAL_OR_KEYWORD, inspect.Parameter.KEYWORD_ONLY)
+    mgk = [p.name for p in ms.parameters.values() if p.kind in kinds]
+    if any(p.kind == inspect.Parameter.VAR_KEYWORD for p in ms.parameters.values()): continue
+    missing = sorted(p.name for p in ns.parameters.values() if p.kind in kinds and p.name not in mgk)
+    if missing == WANT[1]: bad.append((npf.__name__, missing))
+print(bad)
+print('REPRODUCED' if bad else 'NOT-REPRODUCED'); sys.exit(1 if bad else 0)
+"""
+
+
+def run_signatures(spec, tier, mg):
+    """NumPy functions applied to tensors are routed to MyGrad's override with NumPy's own keyword names: a keyword of the NumPy
+    signature that the override does not accept raises TypeError for a call NumPy accepts.  Reflection, no solver."""
+    import inspect
+
+    import mygrad.tensor_base as tb
+
+    res = common.new_result()
+    reg = dict(tb.Tensor.__array_function__.__globals__["_REGISTERED_DIFFERENTIABLE_NUMPY_FUNCS"])
+    kinds = (inspect.Parameter.POSITIONAL_OR_KEYWORD, inspect.Parameter.KEYWORD_ONLY)
+    known = common.load_known(PROP)
+    confirmed = False
+    for npf, mgf in sorted(reg.items(), key=lambda kv: kv[0].__name__):
+        try:
+            ns, ms = inspect.signature(npf), inspect.signature(mgf)
+        except (TypeError, ValueError):
+            continue
+        res["paths"] += 1
+        if any(p.kind == inspect.Parameter.VAR_KEYWORD for p in ms.parameters.values()):
+            continue
+        mgk = [p.name for p in ms.parameters.values() if p.kind in kinds]
+        missing = sorted(p.name for p in ns.parameters.values() if p.kind in kinds and p.name not in mgk)
+        if not missing:
+            continue
+        sig = "override-signature:%s:%s" % (npf.__name__, ",".join(missing))
+        e = common.match_known(known, sig)
+        if e is not None and confirmed:
+            res["violations"].append({"signature": sig, "replay": None, "summary": "(same known finding) np.%s: %s" % (npf.__name__, missing)})
+            continue
+        path = common.write_replay(PROP, gradcase._safe("signature_" + npf.__name__), SIG_REPLAY % ((npf.__name__, missing),))
+        ok, out = common.run_replay(path, count=e is None)
+        if ok:
+            if e is None:
+                res["status"] = common.VIOLATION
+            else:
+                confirmed = True
+            res["violations"].append({"signature": sig, "replay": path,
+                                      "summary": "np.%s(tensor, ...): keywords of NumPy's signature not accepted by the override: %s" % (npf.__name__, missing)})
+        else:
+            res["status"] = common.INCONCLUSIVE
+            res["notes"].append("signature finding did not reproduce: %s" % sig)
+    res["sample"] = {"registered_overrides": len(reg)}
+    return res
+
+
 def run_case(spec, tier):
     mg = common._WORKER["mg"]
     if spec["kind"] == "value":
         return run_value(spec, tier, mg)
+    if spec["kind"] == "signatures":
+        return run_signatures(spec, tier, mg)
     return run_dtype(spec, tier, mg)
 
 
